@@ -668,7 +668,7 @@ def write_evidence(pid, tier, seed, results, canaries, all_obl, failed, undecide
     fns = []
     transforms = set()
     assumptions = []
-    trusted = ['Verus 0.2026.09.13 + Z3 (rustc 1.98.1 front end)', 'tools/extract.py + tools/rustscan.py (mechanical extraction; transformations T1-T8 listed under coverage.transformations)']
+    trusted = ['Verus 0.2026.09.13 + Z3 (rustc 1.98.1 front end)', 'tools/extract.py + tools/rustscan.py (mechanical extraction; transformations T1-T14 listed under coverage.transformations)']
     checker_cmds = []
     by_backend = {}
     smt = 0.0
